@@ -26,6 +26,7 @@ Section SingleOffset.
   Hypothesis Hci : length ci = length cs.
   Hypothesis Hms : py_pos (length ms) t = Some p.
   Hypothesis Hmi : length mi = length ms.
+  Hypothesis Hid : id <> us_id.                            (* the model is not keyed '_' *)
   Hypothesis Hlg : lags cd = lags d.
   Hypothesis Hld : leads cd = leads d.
   Hypothesis Hlen : length cs = length ms.
@@ -60,7 +61,7 @@ Section SingleOffset.
       assert (Eo : off_out = false) by (unfold off_out; rewrite Hoff; reflexivity).
       rewrite E0 in Hev, Hfin, Hagree.
       destruct (single_model_linker_eq_model num sub absf ltb isfin zero sev ev d o t p id cd cv cs ci cl mv ms mi ml lg
-                  Hcheck Hcs Hci Hms Hmi sel Hlg Hld Hlen Hmax Hoff Hev Hfin Hagree Hsel) as (A1 & A2 & A3 & A4 & _).
+                  Hcheck Hcs Hci Hms Hmi Hid sel Hlg Hld Hlen Hmax Hoff Hev Hfin Hagree Hsel) as (A1 & A2 & A3 & A4 & _).
       subst rejected. rewrite Eo, orb_false_r. repeat split; assumption.
     - (* offset <> 0 *)
       assert (Hg : linker_infeasible cd (length cs) t = negb (feasible d (length ms) p)).
@@ -105,7 +106,7 @@ Section SingleOffset.
                  rewrite ?Nat.eqb_refl. fold q. reflexivity. }
              rewrite E0 in Hev, Hfin, Hagree.
              destruct (single_model_linker_eq_model num sub absf ltb isfin zero sev ev d o' t p id cd (copy_endo num zero cd cv p q) cs ci cl
-                         (copy_endo num zero d mv p q) ms mi ml lg Hcheck Hcs Hci Hms Hmi sel Hlg Hld Hlen Hmax eq_refl Hev Hfin Hagree Hsel)
+                         (copy_endo num zero d mv p q) ms mi ml lg Hcheck Hcs Hci Hms Hmi Hid sel Hlg Hld Hlen Hmax eq_refl Hev Hfin Hagree Hsel)
                as (A1 & A2 & A3 & A4 & _).
              cbv zeta in A1, A2, A3, A4. unfold m0, core1 in A1, A2, A3, A4.
              change (max_iter o') with (max_iter o) in A3, A4. change (min_iter o') with (min_iter o) in A3, A4.
